@@ -11,6 +11,7 @@
 //!
 //! alphabet deck      : all C(52,k) k-subsets of the implementation's deck
 //! alphabet deckblank : all k-multisets over the 52 deck cards and the blank word
+//! alphabet deckblank_invalid : those of them that hold a blank or a repeated card (not k distinct real cards)
 //! order 0 : deck order (ace of spades first) / non-decreasing alphabet index
 //! order 1 : reversed
 //! order 2 : a permutation derived from the case counter and --seed (every hand in one pseudo-random slot order)
@@ -72,7 +73,10 @@ fn next_multi(idx: &mut [usize], n: usize) -> bool {
 pub fn sweep(args: &[String]) {
     let op = arg(args, "--op").expect("--op").to_string();
     let k: usize = arg(args, "--k").expect("--k").parse().unwrap();
-    let multi = arg(args, "--alphabet").unwrap_or("deck") == "deckblank";
+    let alphabet = arg(args, "--alphabet").unwrap_or("deck").to_string();
+    let multi = alphabet.starts_with("deckblank");
+    // deckblank_invalid: only the multisets that are NOT k distinct real cards (a blank or a repeated card)
+    let invalid_only = alphabet == "deckblank_invalid";
     let order: u32 = arg(args, "--order").map_or(0, |s| s.parse().unwrap());
     let expect = arg(args, "--expect").expect("--expect").to_string();
     let threads: u64 = arg(args, "--threads").map_or(16, |s| s.parse().unwrap());
@@ -101,7 +105,8 @@ pub fn sweep(args: &[String]) {
             let mut line = String::with_capacity(128);
             let mut ws: Vec<u32> = vec![0; k];
             loop {
-                if c % stride == offset && (c / stride) % threads == t {
+                let wanted = !invalid_only || idx[k - 1] == n - 1 || idx.windows(2).any(|w| w[0] == w[1]);
+                if wanted && c % stride == offset && (c / stride) % threads == t {
                     for (j, i) in idx.iter().enumerate() {
                         ws[j] = alpha[*i];
                     }
